@@ -164,7 +164,12 @@ func (x *Exec) evalBuiltin(s *State, name string, e *ast.CallExpr) Val {
 		return Val{K: KTuple}
 	case "panic":
 		x.eval(s, e.Args[0])
-		x.oblige(s, "panic", e.Pos(), "false", "panic("+exprString(e.Args[0])+") is unreachable")
+		if tc := x.topContract(); tc != nil && tc.Opts["allow_panic"] != "" {
+			// stated in the contract: the function's own defensive panic is not claimed unreachable
+			x.eng.note("explicit panic statements of " + x.eng.curTop.name + " are not claimed unreachable (opt allow_panic)")
+		} else {
+			x.oblige(s, "panic", e.Pos(), "false", "panic("+exprString(e.Args[0])+") is unreachable")
+		}
 		s.dead = true
 		return Val{}
 	case "min", "max":
